@@ -8,6 +8,8 @@ BASELINE = ("cd /repo && /venv/bin/python -m pytest -ra -q -p no:cacheprovider "
 CHECKS = {
  'C01': ('exploration', 'seeded history simulation + capacity/over-commit-ledger invariants',
          'Seeded sequential histories through the real HTTP pipeline, biased to allocation traffic on tight inventories; after every accepted allocation write the capacity/unit invariant is evaluated on the stored rows and an over-commit ledger is kept over the history. Exploration is the right level: the property quantifies over histories and inputs, which are sampled, not enumerated.', '3/C01'),
+ 'C02': ('exploration', 'seeded two-step histories: GET /allocation_candidates then claim of each returned entry from a snapshot',
+         'The claim obligation is a history (candidate returned at event i, accepted by the write at event i+1 with no write in between): for generated states (nested + sharing providers, partially used inventories) and generated queries at microversions 1.10-1.39 every returned entry is sent unchanged as PUT /allocations of a fresh consumer from a snapshot of the same state and must be accepted; decomposition against the query (mappings from 1.34) and provider summaries against the dump are checked for every entry. No independent notion of which candidates should exist is used (C03).', '3/C02'),
  'C04': ('exploration', 'seeded history simulation + before/after dump equality on every rejection',
          'Seeded histories with a high rate of writes built to be rejected at a chosen stage; for every response >= 400 the raw table dump before and after must be equal (only projects/users/consumer types may be added), for every accepted multi-entity write the stored state must equal the reference model.', '3/C04'),
  'C05': ('exploration', 'seeded transaction-granularity schedules of concurrent requests + commit-order CAS linearisation',
@@ -26,6 +28,8 @@ CHECKS = {
          'Every request of a seeded history is executed by the real service and by a small reference model written from the API reference; status, error code, body and the complete stored state are compared after every step, plus cross-view read bursts.', '3/C11'),
  'C12': ('exploration', 'seeded history simulation + consumer<=>allocations invariant',
          'Seeded consumer life-cycle histories in all four microversion bands with random incomplete-consumer ids; consumer <=> allocations invariant after every request, attributes against the model, null-generation follow-up writes.', '3/C12'),
+ 'C20': ('exploration', 'simulator-owned PRNG: limit x randomisation x seed sweep against the unlimited result',
+         'The subject of the property is a source of nondeterminism (random.sample / random.shuffle in limit_results) which the simulator owns: for generated (state, query) pairs the unlimited result M is computed with randomisation off, then every limit 1..|M|+1 under both settings of randomize_allocation_candidates and 8 PRNG seeds is compared against M (size, membership, distinctness, summaries, determinism when off, permutation when on).', '3/C20'),
  'C17': ('fault_enumeration', 'single-fault enumeration at every SQL statement and commit (DBAPI-seam fault injector) + twin/pre-state oracle',
          'For each corpus entry (a generated write request in a generated state, all write routes, plus start-up synchronisation from empty/partial/synced databases) a dry run records every SQL statement and commit; the request is then re-executed once per (ordinal, fault kind): retryable deadlock with and without database-side rollback, duplicate-key race, lost connection, generic error, failed commit. Outcome must be applied-exactly-once (== fault-free twin) or a clean failure (== pre-state, well-formed JSON error), inside the must-retry windows it must be the twin; afterwards the same request re-issued fault-free must behave like the twin. Thorough adds pairs of faults.', '3/C17'),
  'C18': ('fault_enumeration', 'crash-point enumeration (thread frozen, connections rolled back) + invariants on the surviving state',
